@@ -147,27 +147,87 @@ Proof. lia. Qed.
 Definition distinct_on {A K} (key : A -> K) (l : list A) : Prop :=
   forall a b, In a l -> In b l -> key a = key b -> a = b.
 
-(* OptionsFor: independent of protobuf's Range order when the indexes separate the options *)
-Lemma options_for_perm l1 l2 : Permutation l1 l2 -> distinct_on o_index l1 -> options_for l1 = options_for l2.
+(* lexicographic pairs inherit totality, transitivity and antisymmetry *)
+Section Lex.
+  Context {K : Type}.
+  Variable leb : K -> K -> bool.
+  Hypothesis leb_total : forall a b, leb a b = true \/ leb b a = true.
+  Hypothesis leb_trans : forall a b c, leb a b = true -> leb b c = true -> leb a c = true.
+  Lemma lexN_total x y : lexN leb x y = true \/ lexN leb y x = true.
+  Proof.
+    unfold lexN. destruct x as [a k], y as [b l]; cbn [fst snd].
+    destruct (a <? b) eqn:E1; [auto|]. destruct (b <? a) eqn:E2; [auto|]. apply leb_total.
+  Qed.
+  Lemma lexN_trans x y z : lexN leb x y = true -> lexN leb y z = true -> lexN leb x z = true.
+  Proof.
+    unfold lexN. destruct x as [a k], y as [b l], z as [c m]; cbn [fst snd].
+    destruct (a <? b) eqn:E1.
+    - destruct (b <? c) eqn:E2.
+      + intros _ _. replace (a <? c) with true by lia. reflexivity.
+      + destruct (c <? b) eqn:E3; [discriminate|]. intros _ _. replace (a <? c) with true by lia. reflexivity.
+    - destruct (b <? a) eqn:E1'; [discriminate|]. assert (a = b) by lia. subst b.
+      destruct (a <? c) eqn:E2; [reflexivity|]. destruct (c <? a) eqn:E3; [discriminate|]. apply leb_trans.
+  Qed.
+  Lemma lexN_antisym (eqK : K -> K -> Prop) :
+    (forall a b, leb a b = true -> leb b a = true -> eqK a b) ->
+    forall x y, lexN leb x y = true -> lexN leb y x = true -> fst x = fst y /\ eqK (snd x) (snd y).
+  Proof.
+    intros Ha x y. unfold lexN. destruct x as [a k], y as [b l]; cbn [fst snd].
+    destruct (a <? b) eqn:E1; destruct (b <? a) eqn:E2; try discriminate; try lia.
+    intros H1 H2. split; [lia|apply Ha; assumption].
+  Qed.
+End Lex.
+
+Definition lex1 := lexN bleb.
+Definition lex2 := lexN lex1.
+Lemma lex1_total a b : lex1 a b = true \/ lex1 b a = true.
+Proof. exact (lexN_total bleb bleb_total a b). Qed.
+Lemma lex1_trans a b c : lex1 a b = true -> lex1 b c = true -> lex1 a c = true.
+Proof. exact (lexN_trans bleb bleb_total bleb_trans a b c). Qed.
+Lemma lex2_total a b : lex2 a b = true \/ lex2 b a = true.
+Proof. exact (lexN_total lex1 lex1_total a b). Qed.
+Lemma lex2_trans a b c : lex2 a b = true -> lex2 b c = true -> lex2 a c = true.
+Proof. exact (lexN_trans lex1 lex1_total lex1_trans a b c). Qed.
+Lemma opt_key_leb_total a b : opt_key_leb a b = true \/ opt_key_leb b a = true.
+Proof. exact (lexN_total lex2 lex2_total a b). Qed.
+Lemma opt_key_leb_trans a b c : opt_key_leb a b = true -> opt_key_leb b c = true -> opt_key_leb a c = true.
+Proof. exact (lexN_trans lex2 lex2_total lex2_trans a b c). Qed.
+Lemma opt_key_leb_full a b : opt_key_leb (opt_key a) (opt_key b) = true -> opt_key_leb (opt_key b) (opt_key a) = true -> o_full a = o_full b.
 Proof.
-  intros Hp Hd. unfold options_for. apply (isort_perm_invariant o_index N.leb N_leb_total N_leb_trans); [exact Hp|].
-  intros a b Ha Hb H1 H2. apply Hd; auto. unfold le in *. lia.
+  intros H1 H2.
+  assert (A1 : forall u v : N * bytes, lex1 u v = true -> lex1 v u = true -> snd u = snd v).
+  { intros u v Hu Hv. apply (lexN_antisym bleb bleb_total bleb_trans (fun p q => p = q) (fun p q => bleb_antisym p q) u v Hu Hv). }
+  assert (A2 : forall u v : N * (N * bytes), lex2 u v = true -> lex2 v u = true -> snd (snd u) = snd (snd v)).
+  { intros u v Hu Hv. apply (lexN_antisym lex1 lex1_total lex1_trans (fun p q => snd p = snd q) A1 u v Hu Hv). }
+  apply (lexN_antisym lex2 lex2_total lex2_trans (fun p q => snd (snd p) = snd (snd q)) A2 (opt_key a) (opt_key b) H1 H2).
 Qed.
-(* ... and it is NOT in general: two options with the same index (extensions defined at the same
-   position of two different files) come out in Range order *)
-Lemma options_for_tie_refuted :
-  exists a b, o_index a = o_index b /\ options_for [a; b] <> options_for [b; a].
-Proof. exists (mkOpt 0 [97]), (mkOpt 0 [98]). split; [reflexivity|]. vm_compute. discriminate. Qed.
+
+(* OptionsFor (after the repair of finding 28): independent of protobuf's Range order whenever the
+   extensions on the descriptor are distinct (they always are: one value per extension) *)
+Lemma options_for_perm l1 l2 : Permutation l1 l2 -> distinct_on o_full l1 -> options_for l1 = options_for l2.
+Proof.
+  intros Hp Hd. unfold options_for. apply (isort_perm_invariant opt_key opt_key_leb opt_key_leb_total opt_key_leb_trans); [exact Hp|].
+  intros a b Ha Hb H1 H2. apply Hd; auto. apply opt_key_leb_full; assumption.
+Qed.
+(* the order that was used before the repair (index only) did depend on Range order: two options with
+   the same index (extensions defined at the same position of two different files) *)
+Definition options_for_by_index (range_order : list opt) : list opt := isort o_index N.leb range_order.
+Lemma options_for_by_index_tie :
+  exists a b, o_full a <> o_full b /\ options_for_by_index [a; b] <> options_for_by_index [b; a]
+              /\ options_for [a; b] = options_for [b; a].
+Proof.
+  exists (mkOpt 0 0 [97] [97]), (mkOpt 0 0 [98] [98]). split; [discriminate|]. split; [vm_compute; discriminate|vm_compute; reflexivity].
+Qed.
 
 (* field / enum-value options are re-sorted by qualified name: independent of Range order whenever
-   the names are distinct, ties in the index or not *)
+   the names are distinct *)
 Lemma field_options_perm l1 l2 : Permutation l1 l2 -> distinct_on o_name l1 -> field_options l1 = field_options l2.
 Proof.
   intros Hp Hd. unfold field_options. apply (isort_perm_invariant o_name bleb bleb_total bleb_trans).
-  - unfold options_for. rewrite (isort_perm o_index N.leb l1), (isort_perm o_index N.leb l2). exact Hp.
+  - unfold options_for. rewrite (isort_perm opt_key opt_key_leb l1), (isort_perm opt_key opt_key_leb l2). exact Hp.
   - intros a b Ha Hb H1 H2. unfold options_for in Ha, Hb.
-    apply (Permutation_in _ (isort_perm o_index N.leb l1)) in Ha.
-    apply (Permutation_in _ (isort_perm o_index N.leb l1)) in Hb.
+    apply (Permutation_in _ (isort_perm opt_key opt_key_leb l1)) in Ha.
+    apply (Permutation_in _ (isort_perm opt_key opt_key_leb l1)) in Hb.
     apply Hd; auto. apply bleb_antisym; assumption.
 Qed.
 
@@ -695,7 +755,7 @@ Definition model_order_sites : list ((string * string * string * string * string
     (("j5convert", "summary_walk.go", "SourceSummary", "range-map", "importMap.vals"),
       NotObserved "only emits `import not used` warnings (lint report order); the summary itself is built from slices");
     (("optionreflect", "builder.go", "Builder.OptionsFor", "protoreflect.Message.Range", "srcReflect"),
-      Modelled "options_for / field_options" "options_for_perm (distinct indexes: emitted_option_indexes_distinct), field_options_perm (distinct names); options_for_tie_refuted otherwise");
+      Modelled "options_for / field_options" "options_for_perm (total order: line, index, full name), field_options_perm (distinct names); options_for_by_index_tie for the order used before the repair");
     (("optionreflect", "walk.go", "walkOptionMap", "protoreflect.Map.Range", "mp"),
       Modelled "map_entries" "map_entries_perm");
     (("protobuild", "linker.go", "markOptionImportsUsed", "proto.RangeExtensions", "opts"),
